@@ -27,6 +27,87 @@ func runC16(c *Check, tier string) {
 	ruleR16f(c)
 	ruleR16g(c)
 	ruleR16h(c)
+	ruleR16i(c)
+}
+
+// R16i: the decoders fill []*T lists of the package DTO from the file; `null` entries arrive as nil
+// pointers. Every field read through an element of such a list is dominated by a nil test of that element.
+func ruleR16i(c *Check) {
+	c.Rule("R16i", "in internal/loading every loop over a []*T field of PackageDTO (targets, aliases, environments as decoded from the BUILD file) reads a field of the element only after testing the element for nil", 2)
+	dto := c.P.Type("loading", "PackageDTO")
+	if dto == nil {
+		c.Unknown("R16i", "anchor/loading.PackageDTO", "anchor-unresolved", "-")
+		return
+	}
+	st, _ := dto.Underlying().(*types.Struct)
+	ptrLists := map[engine.FieldKey]bool{}
+	for i := 0; st != nil && i < st.NumFields(); i++ {
+		if sl, ok := st.Field(i).Type().Underlying().(*types.Slice); ok {
+			if _, isPtr := sl.Elem().Underlying().(*types.Pointer); isPtr {
+				ptrLists[fk("loading.PackageDTO", st.Field(i).Name())] = true
+			}
+		}
+	}
+	n := 0
+	for _, fn := range c.P.Funcs {
+		if !engine.InPackage(fn, "loading") {
+			continue
+		}
+		for _, lp := range engine.LoopsOf(fn) {
+			rv := lp.RangedValue()
+			if rv == nil {
+				continue
+			}
+			isList := false
+			var listKey engine.FieldKey
+			for _, o := range engine.Origins(rv) {
+				switch x := o.(type) {
+				case *ssa.UnOp:
+					if fa, ok := x.X.(*ssa.FieldAddr); ok && ptrLists[engine.FieldKeyOf(fa.X.Type(), fa.Field)] {
+						isList, listKey = true, engine.FieldKeyOf(fa.X.Type(), fa.Field)
+					}
+				case *ssa.Field:
+					if ptrLists[engine.FieldKeyOf(x.X.Type(), x.Field)] {
+						isList, listKey = true, engine.FieldKeyOf(x.X.Type(), x.Field)
+					}
+				}
+			}
+			if !isList {
+				continue
+			}
+			// element values: loads of &list[i] inside the loop
+			var elems []ssa.Value
+			for b := range lp.Body {
+				for _, in := range b.Instrs {
+					if ld, ok := in.(*ssa.UnOp); ok && ld.Op == token.MUL {
+						if ia, ok := ld.X.(*ssa.IndexAddr); ok && sameSlice(ia.X, rv) {
+							elems = append(elems, ld)
+						}
+					}
+				}
+			}
+			for _, e := range elems {
+				n++
+				nonNil := engine.CutEdgesWhere(func(a engine.Atom) bool { return a.Op == "nonnil" && a.V == e })
+				bad := ""
+				for b := range lp.Body {
+					for _, in := range b.Instrs {
+						fa, ok := in.(*ssa.FieldAddr)
+						if !ok || fa.X != e {
+							continue
+						}
+						if r, _ := engine.PathExists(fn, e.(ssa.Instruction), engine.IsInstr(fa), engine.PathQuery{CutEdge: nonNil, Shallow: true}); r {
+							bad = c.P.InstrPos(fa)
+						}
+					}
+				}
+				c.Require(bad == "", "R16i", "nil-entry-checked/"+listKey.F+"/"+c.P.FuncName(fn), "fields of a list entry are read only after the entry was tested for nil", "a field of a list entry is read ("+bad+") without a nil test: `null` in the "+strings.ToLower(listKey.F)+" list of a BUILD.json/BUILD.yaml decodes to a nil pointer and the loader panics instead of reporting an error", c.P.InstrPos(e.(ssa.Instruction)))
+			}
+		}
+	}
+	if n == 0 {
+		c.Unknown("R16i", "nil-entry-checked", "no loop over a pointer list of PackageDTO found in internal/loading", "-")
+	}
 }
 
 // R16h: a loader hands the BUILD file itself to its decoder. A reader that ends the stream after a fixed
